@@ -302,7 +302,7 @@ def e2e_spec() -> dict:
                         "responses": {"200": {"description": "ok", "content": {media: {"schema": schema}}}}}}
     return pipeline.base_spec({
         "/sse": op("get_sse", "text/event-stream", {"type": "object"}),
-        "/nd": op("get_nd", "application/x-ndjson", {"type": "object"}),
+        "/nd": op("get_nd", "application/x-ndjson", {}),   # untyped items: the generated code yields them as parsed
         "/bin": op("get_bin", "application/octet-stream", {"type": "string", "format": "binary"}),
     })
 
@@ -360,8 +360,20 @@ def run_e2e(chk: Check, results: list[dict]) -> dict:
             chk.broken.append({"kind": "pipeline", "name": "generate(e2e spec)", "detail": str(g.error)})
             return {"generated": False, "error": str(g.error)}
         src = g.read("client/endpoints/t.py")
-        calls = re.findall(r"async def (get_\w+)\(.*?async for chunk in (\w+)\(response\):\s*\n\s*yield ([^\n]+)", src, re.S)
-        info["generated_calls"] = {m: f"async for chunk in {h}(response): yield {y.strip()}" for m, h, y in calls}
+        calls = re.findall(r"async def (get_\w+)\(.*?async for (\w+) in (\w+)\(response\):\s*\n\s*yield ([^\n]+)", src, re.S)
+        info["generated_calls"] = {m: f"async for {v} in {h}(response): yield {y.strip()}" for m, v, h, y in calls}
+        # which helper each generated streaming operation calls is read off the generated code; the model follows it
+        KNOWN = {("iter_sse_events_text", "json.loads(chunk)"): "HSseText", ("iter_ndjson", "item"): "HNdjson",
+                 ("iter_bytes", "chunk"): "bytes"}
+        helpers = {m: KNOWN.get((h, y.strip())) for m, v, h, y in calls}
+        if (set(helpers) != {"get_sse", "get_nd", "get_bin"} or helpers["get_bin"] != "bytes"
+                or helpers["get_sse"] not in ("HSseText", "HNdjson") or helpers["get_nd"] not in ("HSseText", "HNdjson")):
+            chk.broken.append({"kind": "pipeline", "name": "generated streaming code calls a helper/yield form that is not modelled",
+                               "detail": json.dumps(info["generated_calls"])})
+            return {**info, "driven": False}
+        info["helpers"] = helpers
+        for r in results:
+            r["e2e_helpers"] = helpers
         tsrc = g.read("client/core/http_transport.py")
         info["transport_reads_whole_body"] = ("self._client.request(" in tsrc) and (".stream(" not in tsrc)
         jobs, owner = [], []
@@ -397,7 +409,9 @@ def oracle_e2e(r: dict) -> list[str]:
     row = rows[0]
     if bytes.fromhex("".join(row["get_bin"][0])) != stream or row["get_bin"][1] != "ok":
         fails.append("generated client (octet-stream): streamed chunks differ from the bytes sent")
+    helpers = r.get("e2e_helpers", {})
     tev = r["whole"]["tev"]
+    exp_by_helper: dict[str, Any] = {}
     if isinstance(tev, list):
         exp, status = [], "ok"
         for t in tev:
@@ -406,9 +420,18 @@ def oracle_e2e(r: dict) -> list[str]:
             except ValueError:
                 status = "json"
                 break
-        for op in ("get_sse", "get_nd"):
-            if canon(row[op]) != canon([exp, status]):
-                fails.append(f"generated client ({op}): items differ from json.loads of iter_sse_events_text on the same stream")
+        exp_by_helper["HSseText"] = ([exp, status], "json.loads of iter_sse_events_text")
+    nd = r["whole"]["nd"]
+    exp_by_helper["HNdjson"] = ([nd[0], "json" if nd[1] else "ok"], "iter_ndjson")
+    for op in ("get_sse", "get_nd"):
+        h = helpers.get(op)
+        if h in exp_by_helper and canon(row[op]) != canon(exp_by_helper[h][0]):
+            fails.append(f"generated client ({op}): items differ from {exp_by_helper[h][1]} on the same stream")
+    # the records that were written come back through the generated application/x-ndjson operation
+    if r["input"]["kind"] == "ndjson" and helpers.get("get_nd") == "HNdjson":
+        recs = [x["v"] for x, _ in r["input"]["spec"]["lines"] if x is not None]
+        if canon(row["get_nd"]) != canon([recs, "ok"]):
+            fails.append("generated client (get_nd): decoded records differ from the records that were written")
     return fails
 
 
@@ -554,7 +577,9 @@ def c_case(r: dict) -> str | None:
                 f"{clist(cstr(bytes.fromhex(b)) for b in row['get_bin'][0])}))")
     ci = (f"{{| i_chunkings := {clist(clist(cstr(c) for c in cs) for cs in chunkings)}; i_spec := {c_spec(inp)}; "
           f"i_int := {clist(cpair(cstr(k), cZ(v)) for k, v in ints)}; i_int_fail := {clist(cstr(k) for k in int_fail)}; "
-          f"i_json := {clist(cpair(cstr(k), str(v)) for k, v in jtab)} |}}")
+          f"i_json := {clist(cpair(cstr(k), str(v)) for k, v in jtab)}; "
+          f"i_h_sse := {r.get('e2e_helpers', {}).get('get_sse', 'HSseText')}; "
+          f"i_h_nd := {r.get('e2e_helpers', {}).get('get_nd', 'HNdjson')} |}}")
     same_bytes = all(o["bytes"] == cs for o, cs in zip(per, chunkings))
     bl = "(i_chunkings i)" if same_bytes else clist(clist(cstr(b) for b in o["bytes"]) for o in per)
     texts = clist(clist(cstr(t) for t in o["texts"]) for o in per)
@@ -585,7 +610,8 @@ def split_by_obs(r: dict) -> list[dict]:
     for idxs in groups.values():
         inp = {**r["input"], "chunkings": [r["input"]["chunkings"][i] for i in idxs]}
         out.append({"input": inp, "per": [r["per"][i] for i in idxs], "whole": r["whole"],
-                    **({"e2e": r["e2e"]} if "e2e" in r else {})})
+                    **({"e2e": r["e2e"]} if "e2e" in r else {}),
+                    **({"e2e_helpers": r["e2e_helpers"]} if "e2e_helpers" in r else {})})
     return out
 
 
